@@ -86,6 +86,7 @@ WInit0 ==
       se |-> [reacting |-> FALSE, cur |-> 0, prepared |-> <<>>],                  \* [system_event_reader.rs]
       er |-> [reacting |-> FALSE, sys |-> 0, src |-> 0, rk |-> "", rt |-> 0, prepared |-> <<>>],  \* [entity_reaction_readers.rs]
       ds |-> [reacting |-> FALSE, src |-> 0, h |-> 0, held |-> FALSE, prepared |-> <<>>],         \* [despawn_reader.rs]
+      pendcl |-> "",                \* reader cleanup of a running exclusive system, queued on the world's command queue and not yet flushed
       counter |-> 0, buffered |-> <<>>,                                           \* [syscommand_runner.rs, command_queue.rs]
       stack |-> <<>>,
       runs |-> [ s \in Sys |-> 0 ],
@@ -268,6 +269,10 @@ CleanupW(x, kind) ==
             IN [w |-> [x1 EXCEPT !.ds.reacting = FALSE, !.ds.held = FALSE, !.ds.h = 0], out |-> <<>>]
       [] OTHER -> [w |-> x, out |-> <<>>]
 
+(* the world's own command queue is flushed (World::flush, World::spawn, the end of EntityWorldMut::despawn, applying any  *)
+(* other command queue): a pending cleanup of an exclusive system runs now                                               *)
+TakePend(x) == IF x.pendcl = "" THEN [w |-> x, out |-> <<>>] ELSE CleanupW([x EXCEPT !.pendcl = ""], x.pendcl)
+
 (* what the readers of a system show right now (canonical order: bc, ee, se, ins, mut, rem, desp) *)
 ViewW(x, take) ==
     LET evd == x.ev.cur
@@ -322,8 +327,11 @@ SetTopF(x, fr) == [x EXCEPT !.stack[Len(x.stack)] = fr]
 (* GC followed by the poll; the reactions found run in a queue frame closed by `pollend` *)
 GcPoll(x, pre) ==
     LET g == GcW(x)
-        p == PollW(g.w)
-    IN [w |-> PushF(p.w, QFrame(p.q, << [t |-> "pollend"] >>)), out |-> pre \o g.out \o p.out]
+        \* a collection that despawns something ends with a flush; otherwise the poll's own flush comes after its dispatches
+        c1 == IF Len(g.out[1].d) > 0 THEN TakePend(g.w) ELSE [w |-> g.w, out |-> <<>>]
+        p == PollW(c1.w)
+        c2 == TakePend(p.w)
+    IN [w |-> PushF(c2.w, QFrame(p.q, << [t |-> "pollend"] >>)), out |-> pre \o g.out \o c1.out \o p.out \o c2.out]
 
 PollOnly(x, pre) ==
     LET p == PollW(x)
@@ -418,8 +426,15 @@ OpEffect(x, op0, ret) ==
                 out |-> <<>>, q |-> <<>>]
       [] OTHER -> [w |-> x, out |-> <<>>, q |-> <<>>]
 
-ExecOp(x, it) ==
-    LET ef == OpEffect(x, it.op, it.ret)
+ExecOp(x0, it) ==
+    LET n0 == it.op[1]
+        \* World::send_system_event spawns the data entity first (World::spawn flushes); World::broadcast / entity_event dispatch in a
+        \* cached system and flush when its command queue is applied; SystemCommand::apply flushes in the runner's entry poll
+        pre == IF n0 = "isysev" THEN TakePend(x0) ELSE [w |-> x0, out |-> <<>>]
+        x == pre.w
+        ef0 == OpEffect(x, it.op, it.ret)
+        post == IF n0 \in {"ibc", "ieev"} THEN TakePend(ef0.w) ELSE [w |-> ef0.w, out |-> <<>>]
+        ef == [w |-> post.w, out |-> pre.out \o ef0.out \o post.out, q |-> ef0.q]
         pr == IF it.op[1] = "probe"
               THEN LET v == ViewW(ef.w, TRUE) IN [w |-> v.w, out |-> << [t |-> "probe", r |-> it.r, i |-> it.i, view |-> v.view] >> \o v.took]
               ELSE [w |-> ef.w, out |-> <<>>]
@@ -444,7 +459,7 @@ ExecCmd(x, c) ==
         rec == [t |-> "cmd", kind |-> kind, sys |-> c.s, src |-> IF kind \in {"eev", "ereact", "desp"} THEN c.e ELSE 0,
                 rk |-> IF kind = "ereact" THEN c.rk ELSE "", rt |-> IF kind = "ereact" THEN c.ty ELSE 0,
                 data |-> IF kind \in {"sysev", "bc", "eev"} THEN d ELSE 0]
-        fr == [f |-> "r", k |-> k, s |-> c.s, kind |-> kind, idx |-> 0, pc |-> "enter", r |-> 0, ops |-> <<>>, started |-> FALSE, nt |-> 0, t2 |-> 0]
+        fr == [f |-> "r", k |-> k, s |-> c.s, kind |-> kind, idx |-> 0, pc |-> "enter", r |-> 0, ops |-> <<>>, started |-> FALSE, nt |-> 0, t2 |-> 0, cleaned |-> FALSE]
     IN [w |-> PushF([x1 EXCEPT !.nextK = @ + 1], fr), out |-> <<rec>>]
 
 ----------------------------------------------------------------------------
@@ -521,7 +536,7 @@ RReplay(x, fr) ==
        IF i = 0 \/ stop
        THEN [w |-> SetTopF(x, [fr EXCEPT !.pc = "final"]), out |-> <<>>]
        ELSE LET b == x.buffered[i]
-                nf == [f |-> "r", k |-> b.k, s |-> b.s, kind |-> b.kind, idx |-> 0, pc |-> "enter", r |-> 0, ops |-> <<>>, started |-> FALSE, nt |-> 0, t2 |-> 0]
+                nf == [f |-> "r", k |-> b.k, s |-> b.s, kind |-> b.kind, idx |-> 0, pc |-> "enter", r |-> 0, ops |-> <<>>, started |-> FALSE, nt |-> 0, t2 |-> 0, cleaned |-> FALSE]
                 x1 == SetTopF([x EXCEPT !.buffered = RemoveAt(@, i)], [fr EXCEPT !.started = TRUE])
             IN [w |-> PushF(x1, nf), out |-> << [t |-> "replay", k |-> b.k] >>]
 
@@ -615,6 +630,10 @@ FreeOp(x, cur, OpNames_, go(_)) ==
     \/ "xsysev" \in OpNames_ /\ \E s \in Targets(x) : go(<<"xsysev", s, x.nextP>>)
     \/ "xbc" \in OpNames_ /\ \E t \in Tys : go(<<"xbc", t, x.nextP>>)
     \/ "xeev" \in OpNames_ /\ \E e \in Ents, t \in Tys : go(<<"xeev", e, t, x.nextP>>)
+    \/ "irun" \in OpNames_ /\ \E s \in Targets(x) : go(<<"irun", s>>)
+    \/ "isysev" \in OpNames_ /\ \E s \in Targets(x) : go(<<"isysev", s, x.nextP>>)
+    \/ "ibc" \in OpNames_ /\ \E t \in Tys : go(<<"ibc", t, x.nextP>>)
+    \/ "ieev" \in OpNames_ /\ \E e \in Ents, t \in Tys : go(<<"ieev", e, t, x.nextP>>)
     \/ "smut" \in OpNames_ /\ \E e \in Ents, t \in Tys, v \in 1..NVal : Holders(x, t) = {e} /\ go(<<"smut", e, t, v>>)
     \/ "sset" \in OpNames_ /\ \E e \in Ents, t \in Tys, v \in SetVals : Holders(x, t) = {e} /\ go(<<"sset", e, t, v>>)
     \/ "sno" \in OpNames_ /\ \E e \in Ents, t \in Tys, v \in 1..NVal : Holders(x, t) = {e} /\ go(<<"sno", e, t, v>>)
@@ -658,14 +677,19 @@ RBodyOp(x, fr, op) ==
     LET is == IssueW(x, op)
         i == Len(fr.ops) + 1
         x1 == [is.w EXCEPT !.budget = IF Scripted THEN @ ELSE @ - 1]
-    IN [w |-> SetTopF(x1, [fr EXCEPT !.ops = Append(@, [op |-> op, ret |-> is.ret])]),
-        out |-> << IssueRec(fr.r, i, op, is.ret) >>]
+        imm == op[1] \in ImmOps
+        x2 == SetTopF(x1, [fr EXCEPT !.ops = Append(@, [op |-> op, ret |-> is.ret]), !.cleaned = IF imm THEN TRUE ELSE @])
+        item == [Cmd0 EXCEPT !.c = "op", !.r = fr.r, !.i = i, !.op = op, !.ret = is.ret]
+    IN IF imm
+       THEN \* an immediate call: it runs now, nested in the body; the cleanup this exclusive system queued is flushed on the way
+            [w |-> PushF([x2 EXCEPT !.pendcl = IF fr.cleaned THEN @ ELSE fr.kind], QFrame(<<item>>, <<>>)), out |-> << IssueRec(fr.r, i, op, is.ret) >>]
+       ELSE [w |-> x2, out |-> << IssueRec(fr.r, i, op, is.ret) >>]
 
 RBodyEnd(x, fr, err) ==
     (* body returned: cleanup, then its commands are applied in order   [callbacks.rs:run_initialized_system] *)
-    LET cl == CleanupW(x, fr.kind)
+    LET cl == IF fr.cleaned THEN [w |-> x, out |-> <<>>] ELSE CleanupW(x, fr.kind)
         items0 == [ i \in DOMAIN fr.ops |-> [Cmd0 EXCEPT !.c = "op", !.r = fr.r, !.i = i, !.op = fr.ops[i].op, !.ret = fr.ops[i].ret] ]
-        items == SelectSeq(items0, LAMBDA it : it.op[1] # "setlocal" /\ it.ret # -9)
+        items == SelectSeq(items0, LAMBDA it : it.op[1] # "setlocal" /\ it.ret # -9 /\ it.op[1] \notin ImmOps)
         late == "cleanup_after_commands" \in Mutants
         q == IF late THEN Append(items, [Cmd0 EXCEPT !.c = "cleanup", !.kind = fr.kind]) ELSE items
         x1 == SetTopF(IF late THEN x ELSE cl.w, [fr EXCEPT !.pc = "post"])
@@ -733,7 +757,10 @@ StepBody(fr) ==
               IN IF Len(fr.ops) < Len(sc.ops) THEN Emit(RBodyOp(w, fr, sc.ops[Len(fr.ops) + 1]))
                  ELSE Emit(RBodyEnd(w, fr, sc.err))
          ELSE \/ /\ Len(fr.ops) < BodyOps /\ w.budget > 0
-                 /\ FreeOp(w, fr.s, IF fr.s \in Excl THEN OpNames \ NeedAccess ELSE OpNames, LAMBDA op : Emit(RBodyOp(w, fr, op)))
+                 /\ FreeOp(w, fr.s, IF fr.s \in Excl
+                                   THEN (OpNames \ NeedAccess) \ (IF \A j \in DOMAIN fr.ops : fr.ops[j].op[1] \in ImmOps THEN {} ELSE ImmOps)
+                                   ELSE OpNames \ ImmOps,
+                           LAMBDA op : Emit(RBodyOp(w, fr, op)))
               \/ \E err \in (IF "err" \in Features THEN {FALSE, TRUE} ELSE {FALSE}) : Emit(RBodyEnd(w, fr, err))
 
 StepR(fr) ==
@@ -760,7 +787,7 @@ StepD(fr) ==
                  IN Emit([w |-> PushF(SetTopF(w, [fr EXCEPT !.pc = "wait"]), QFrame(items, <<>>)), out |-> <<>>])
       [] fr.pc = "free" ->
             \/ /\ Len(fr.issued) < MaxOps /\ w.budget > 0
-               /\ FreeOp(w, 0, IF fr.direct THEN OpNames \cap DirectOps ELSE OpNames, LAMBDA op : LET is == IssueW(w, op) IN
+               /\ FreeOp(w, 0, IF fr.direct THEN OpNames \cap DirectOps ELSE OpNames \ ImmOps, LAMBDA op : LET is == IssueW(w, op) IN
                        Emit([w |-> SetTopF([is.w EXCEPT !.budget = @ - 1], [fr EXCEPT !.issued = Append(@, [op |-> op, ret |-> is.ret])]),
                              out |-> << IssueRec(-w.step, Len(fr.issued) + 1, op, is.ret) >>]))
             \/ /\ Len(fr.issued) > 0
